@@ -42,6 +42,7 @@ from pydiverse.transform._internal.pipe.pipeable import (
 from pydiverse.transform._internal.pipe.table import Table
 from pydiverse.transform._internal.tree import types
 from pydiverse.transform._internal.tree.col_expr import (
+    CaseExpr,
     Col,
     ColExpr,
     ColFn,
@@ -1642,6 +1643,12 @@ def preprocess_arg(arg: ColExpr, table: Table, *, agg_is_window: bool = True) ->
         if isinstance(expr, ColName):
             return table[expr.name]
 
+        if isinstance(expr, Col) and not eval_aligned:
+            # The reference denotes the column of *this* table; its type may differ
+            # from the one of the table the reference was taken from (e.g. after a
+            # union with a column of a wider type).
+            expr = table._cache.cols[expr._uuid]
+
         new = copy.copy(expr)
         if (
             agg_is_window
@@ -1660,6 +1667,9 @@ def preprocess_arg(arg: ColExpr, table: Table, *, agg_is_window: bool = True) ->
                 eval_aligned=eval_aligned | isinstance(expr, EvalAligned),
             )
         )
+        if isinstance(new, ColFn | CaseExpr):
+            # the type derived when the expression was built may be outdated now
+            new._dtype = None
 
         # add casts for boolean add / sum
         # If we have more operations like these, which we want to map to other
